@@ -314,6 +314,120 @@ func RunStorageErrors(c *Ctx) {
 				How: []string{"no token-creating call, success document, Active=true store or success return is reachable in a path state carrying fail(" + ct.String() + ")"}, Ctl: fi.Ctl})
 		}
 	}
+	// 2b. storage calls made inside helpers that the validated tree does not have are interpreted in place in their callers
+	// (E1): a caller that goes on to a grant sink after such a call failed - a retry, a fallback to remembered data, a second
+	// attempt - is the same violation, seen through the event fact didFail(<method>).
+	{
+		helpers := c.helpers()
+		storageIn := map[*types.Func]bool{} // post-baseline helpers that (transitively) call into the storage
+		methods := map[string]bool{}
+		for iter := 0; iter < 3; iter++ {
+			for _, fi := range c.P.Funcs {
+				if fi.Body == nil || fi.Obj == nil || helpers[fi.Obj] == nil || storageIn[fi.Obj] {
+					continue
+				}
+				info := fi.Pkg.TypesInfo
+				ast.Inspect(fi.Body, func(n ast.Node) bool {
+					if call, ok := n.(*ast.CallExpr); ok {
+						if fn, _ := typeutil.Callee(info, call).(*types.Func); fn != nil {
+							if isStorageMethod(c, fn) {
+								storageIn[fi.Obj] = true
+								methods[fn.Name()] = true
+							} else if storageIn[fn.Origin()] {
+								storageIn[fi.Obj] = true
+							}
+						}
+					}
+					return true
+				})
+			}
+		}
+		if len(storageIn) > 0 {
+			for _, fi := range c.P.Funcs {
+				if fi.Body == nil || fi.Ctl || fi.Lit != nil || shortPkg(fi.Pkg.PkgPath) != "op" {
+					continue
+				}
+				info := fi.Pkg.TypesInfo
+				callsHelper := false
+				ast.Inspect(fi.Body, func(n ast.Node) bool {
+					if call, ok := n.(*ast.CallExpr); ok {
+						if fn, _ := typeutil.Callee(info, call).(*types.Func); fn != nil && storageIn[fn.Origin()] {
+							callsHelper = true
+						}
+					}
+					return !callsHelper
+				})
+				if !callsHelper {
+					continue
+				}
+				f := e.analyse(fi)
+				if f.widened {
+					continue
+				}
+				for _, st0 := range f.sites {
+					isSink := false
+					switch st0.kind {
+					case "call":
+						isSink = grantSinkCalls[st0.term.S] && st0.term.K == "call"
+						if st0.term.K == "call" && st0.term.S == "httphelper.MarshalJSON" && len(st0.term.A) == 2 && st0.term.A[1].K != "nil" {
+							isSink = true
+							if ce, ok := st0.node.(*ast.CallExpr); ok && len(ce.Args) == 2 {
+								if t := fi.Pkg.TypesInfo.TypeOf(ce.Args[1]); t != nil && strings.HasSuffix(typeStr(t), "oidc.IntrospectionResponse") {
+									isSink = false
+								}
+							}
+						}
+					case "store":
+						if len(st0.term.A) == 2 && st0.term.A[0].K == "sel" && st0.term.A[0].S == "Active" && st0.term.A[1].K == "const" && st0.term.A[1].S == "true" {
+							isSink = true
+						}
+					case "ret":
+						isSink = f.errIdx >= 0
+					}
+					if !isSink {
+						continue
+					}
+					reported := false
+					for i, st := range st0.states {
+						if reported || (st0.kind == "ret" && !st0.ok[i]) {
+							continue
+						}
+						for _, fc := range st.facts {
+							if fc.S != "didFail" || len(fc.A) != 1 || !methods[fc.A[0].S] {
+								continue
+							}
+							m := fc.A[0].S
+							// a failure the code classified with errors.Is(err, <sentinel>) is an explicit decision
+							sentinel := false
+							for _, g := range st.facts {
+								if g.S == "errIs" && len(g.A) == 2 {
+									g.A[0].walk(func(x *Term) bool {
+										if x.K == "mcall" && x.S == m {
+											sentinel = true
+										}
+										return !sentinel
+									})
+								}
+							}
+							if sentinel {
+								continue
+							}
+							if _, ok := allowed[fi.Name+"|"+m]; ok {
+								usedAllowed[fi.Name+"|"+m] = true
+								continue
+							}
+							reported = true
+							c.R.Obl(Obligation{Rule: "E5.R-storage", Func: fi.Name, Construct: "storage call " + m + " in a helper (error edge grants nothing)", Pos: c.P.Position(st0.pos), Discharged: false, Nontrivial: true})
+							c.R.Find(Finding{Rule: "E5.R-storage", Func: fi.Name, Construct: "grant after a failed " + m + " (through a helper)", Pos: c.P.Position(st0.pos),
+								Msg:  fmt.Sprintf("after a call of Storage.%s failed (inside a helper of %s), `%s` is still reachable: a storage failure must end the request with an error and grant nothing - no retry, no remembered result", m, fi.Name, st0.term),
+								Path: append([]string{"entry"}, append(st.trail(), "sink@"+c.P.Position(st0.pos))...)})
+							break
+						}
+					}
+				}
+			}
+		}
+	}
 	c.R.Extra["storage_call_sites"] = nCalls
 	for k := range allowed {
 		if !usedAllowed[k] {
